@@ -50,7 +50,18 @@ func newErrInvalidOperand(val Operand, typeObj interface{}) *ErrInvalidOperand {
 	}
 }
 
-func (e *ErrInvalidOperand) Error() string {
+func (e *ErrInvalidOperand) Error() (text string) {
+	// formatting the operand calls its String method if it has one, and that
+	// method may panic in a way fmt does not absorb: report the type only then
+	defer func() {
+		if recover() != nil {
+			text = fmt.Sprintf("Operand of type %T is not the correct type. Expected: %T, Actual: %T",
+				e.Val,
+				e.typeObj,
+				e.Val,
+			)
+		}
+	}()
 	return fmt.Sprintf("Operand %v is not the correct type. Expected: %T, Actual: %T",
 		e.Val,
 		e.typeObj,
